@@ -239,7 +239,7 @@ func (e *Engine) cmdCheck(prop, tier, evid, known, replayDir string, replay bool
 			continue
 		}
 		for _, ob := range all {
-			if ob.Name == f.Obligation {
+			if baseName(ob.Name) == f.Obligation || ob.Name == f.Obligation {
 				re, perr := parseExpr(f.Region)
 				if perr != nil {
 					e.toolErrors = append(e.toolErrors, "known finding region: "+perr.Error())
@@ -304,7 +304,7 @@ func (e *Engine) cmdCheck(prop, tier, evid, known, replayDir string, replay bool
 		// not discharged
 		var kf *Finding
 		for _, f := range findings {
-			if f.Kind == "finding" && f.Property == prop && f.Obligation == ob.Name && f.Region == "" {
+			if f.Kind == "finding" && f.Property == prop && (f.Obligation == ob.Name || f.Obligation == baseName(ob.Name)) && f.Region == "" {
 				kf = f
 			}
 		}
@@ -421,4 +421,12 @@ func (e *Engine) baselineMin(prop string) int {
 		return v
 	}
 	return 1
+}
+
+// baseName strips the occurrence suffix "~n" of an obligation name.
+func baseName(n string) string {
+	if i := strings.LastIndex(n, "~"); i >= 0 {
+		return n[:i]
+	}
+	return n
 }
